@@ -59,6 +59,10 @@ func TestC14(t *testing.T) {
 					data := []byte(fmt.Sprintf("leaf-%d-%d", rep, rr.Intn(1000)))
 					cc := st.PutBlock(1, cid.Raw, data)
 					name := fmt.Sprintf("n%02d", i)
+					if !asShardLinks && i%2 == 1 {
+						// names that parse as integers are names all the same
+						name = []string{"0", "7", "2019", "-1", "08", "1e3"}[(i/2+rep)%6]
+					}
 					if asShardLinks {
 						name = fmt.Sprintf("%0*X%s", pad, i, name)
 					}
@@ -194,6 +198,20 @@ func TestC14(t *testing.T) {
 				add("shard/"+s.name, s.expect, mustMarshal(s.m), true, ls, names, "shard parameters")
 			}
 
+			// a valid root shard over a child shard with invalid parameters: the lazy variants reify the
+			// root alone, the preload variant reifies every shard and has to report the invalid one
+			for _, s := range svs {
+				if s.expect != "error" || s.links != 0 || rr.Intn(3) != 0 {
+					if !(s.expect == "error" && s.links == 1 && s.pad == 1) {
+						continue
+					}
+				}
+				cls, _ := mkChildren(s.links, true, s.pad)
+				childCid := st.PutBlock(1, cid.DagProtobuf, encodePB(mustMarshal(s.m), true, cls))
+				root := mustMarshal(&pb.Data{Type: &st5, HashType: mur, Fanout: proto.Uint64(8), Data: []byte{0x04}})
+				add("shard/valid-root-over-child-"+s.name, "map-lazy-error-preload", root, true, []pbLinkSpec{{Name: strp("2"), Tsize: u64p(1), Cid: childCid}}, nil, "child shard with invalid parameters")
+			}
+
 			// nodes that are already reified (ADLs, not dag-pb): returned unchanged by every variant
 			{
 				pls := st.LinkSystem(true)
@@ -285,6 +303,15 @@ func TestC14(t *testing.T) {
 							c.Violation("C14|non-dagpb-changed|"+v.name, "%s of a %s node returned (%T, %v) instead of the very same node", v.name, in.Class, out, err)
 						}
 						continue
+					case "map-lazy-error-preload":
+						if v.name == "unixfs-preload" {
+							if err == nil {
+								c.Violation("C14|invalid-accepted|"+v.name, "%s of %s (%s) returned a %T node and no error although it reifies the whole directory", v.name, in.Class, in.Why, out)
+							}
+						} else if err != nil || out == nil || out.Kind() != datamodel.Kind_Map {
+							c.Violation("C14|wrong-class|"+v.name, "%s of %s returned (%T, %v), want a map for the valid root shard", v.name, in.Class, out, err)
+						}
+						continue
 					case "error":
 						if err == nil {
 							c.Violation("C14|invalid-accepted|"+v.name, "%s of %s (%s) returned a %T node instead of an error", v.name, in.Class, in.Why, out)
@@ -325,6 +352,14 @@ func TestC14(t *testing.T) {
 							}
 							if lk, e := lv.AsLink(); e != nil || lk == nil {
 								c.Violation("C14|linkmap-lookup|"+v.name, "%s of %s: LookupByString(%q) is not a link (%v)", v.name, in.Class, name, e)
+							}
+							// the same name as a path segment and as a node key
+							var sv, nv ipld.Node
+							var serr, nerr error
+							c.Guard("LookupBySegment", func() { sv, serr = out.LookupBySegment(datamodel.PathSegmentOfString(name)) })
+							c.Guard("LookupByNode", func() { nv, nerr = out.LookupByNode(basicnode.NewString(name)) })
+							if serr != nil || sv == nil || nerr != nil || nv == nil {
+								c.Violation("C14|linkmap-lookup|"+v.name, "%s of %s: link %q is found by LookupByString but LookupBySegment gives (%v) and LookupByNode gives (%v)", v.name, in.Class, name, serr, nerr)
 							}
 						}
 					}
